@@ -795,7 +795,7 @@ func srTest(t *testing.T, prop string) {
 			runOne(cs)
 		}
 		r := vNewRand(vSeed() ^ uint64(len(prop))<<32 ^ uint64(prop[2]))
-		n := vN(70, 1200)
+		n := vN(150, 1500)
 		for i := 0; i < n; i++ {
 			runOne(srGen(r.Fork(), prop))
 		}
